@@ -41,18 +41,46 @@ from ..interpolatableFunction import InterpolatableFunction, inputType, outputTy
 
 
 def _integrator(
-    func: typing.Callable, a: float, b: float
+    func: typing.Callable, a: float, b: float, points: list[float] | None = None
 ) -> float:
     """
-    Simple wrapper for scipy.integrate.quad with defaults inbuilt
+    Simple wrapper for scipy.integrate.quad with defaults inbuilt.
+    Interior singular points of the integrand (finite interval only) can be
+    given in ``points`` so that quad does not integrate across them.
     """
-    res = scipy.integrate.quad(
-        func,
-        a,
-        b,
-        limit=100,
-    )
+    if points:
+        res = scipy.integrate.quad(
+            func,
+            a,
+            b,
+            limit=100 + len(points),
+            points=points,
+        )
+    else:
+        res = scipy.integrate.quad(
+            func,
+            a,
+            b,
+            limit=100,
+        )
     return float(res[0])
+
+
+def _singularPoints(x: float, offset: float) -> list[float]:
+    r"""
+    For negative argument x, the integrands on :math:`0<y<\sqrt{-x}` have a
+    logarithmic singularity (real part) or a jump (imaginary part) wherever
+    :math:`\sqrt{-y^2-x} = \text{offset} + 2\pi k`, with offset 0 for bosons and
+    :math:`\pi` for fermions. Returns these interior points.
+    """
+    points = []
+    k = 0
+    while (offset + 2 * np.pi * k) ** 2 < -x:
+        w = offset + 2 * np.pi * k
+        if w > 0:
+            points.append(float(np.sqrt(-x - w**2)))
+        k += 1
+    return points
 
 
 class JbIntegral(InterpolatableFunction):
@@ -146,7 +174,8 @@ class JbIntegral(InterpolatableFunction):
                     _integrator(
                         lambda y: JbIntegral._integrandNegativeReal(xWrapper, y),
                         0.0,
-                        np.sqrt(np.abs(xWrapper))
+                        np.sqrt(np.abs(xWrapper)),
+                        _singularPoints(xWrapper, 0.0),
                     )
                     + _integrator(
                         lambda y: JbIntegral._integrandPositiveReal(xWrapper, y),
@@ -157,7 +186,8 @@ class JbIntegral(InterpolatableFunction):
                 resImag = _integrator(
                     lambda y: JbIntegral._integrandNegativeImaginary(xWrapper, y),
                     0.0,
-                    np.sqrt(np.abs(xWrapper))
+                    np.sqrt(np.abs(xWrapper)),
+                    _singularPoints(xWrapper, 0.0),
                 )
 
             return complex(resReal + 1j * resImag)
@@ -263,7 +293,8 @@ class JfIntegral(InterpolatableFunction):
                     _integrator(
                         lambda y: JfIntegral._integrandNegativeReal(xWrapper, y),
                         0.0,
-                        np.sqrt(np.abs(xWrapper))
+                        np.sqrt(np.abs(xWrapper)),
+                        _singularPoints(xWrapper, np.pi),
                     )
                     + _integrator(
                         lambda y: JfIntegral._integrandPositiveReal(xWrapper, y),
@@ -274,7 +305,8 @@ class JfIntegral(InterpolatableFunction):
                 resImag = _integrator(
                     lambda y: JfIntegral._integrandNegativeImaginary(xWrapper, y),
                     0.0,
-                    np.sqrt(np.abs(xWrapper))
+                    np.sqrt(np.abs(xWrapper)),
+                    _singularPoints(xWrapper, np.pi),
                 )
 
             return complex(resReal + 1j * resImag)
